@@ -1453,6 +1453,10 @@ int NifFile::Save(const std::filesystem::path& fileName, const NifSaveOptions& o
 }
 
 int NifFile::Save(std::ostream& file, const NifSaveOptions& options) {
+	// Nothing was loaded or created (e.g. a failed load cleared the model)
+	if (!isValid)
+		return 1;
+
 	if (file) {
 		NiOStream stream(&file, &hdr);
 		FinalizeData();
